@@ -8,6 +8,7 @@
 import Kvass.Model.Loop
 import Kvass.Spec.Loop
 import Kvass.Spec.Sidecar
+import Kvass.Proofs.CoordQuiet
 import Kvass.Driver.Coord
 import Kvass.Driver.Sidecar
 
@@ -88,7 +89,9 @@ def stepAcc (env : Env) (a : Acc) (x : Nat × ROp × (Nat × List SC.Obs)) : Acc
       -- did the real cycle leave every shard alone and keep the scale?
       let quiet := ob.scales == [(a.w.replicas : Int)] && !ob.crashed &&
         ob.reqs.length == reports.length && (ob.reqs.zip reports).all fun (rs, st) => rs == Loop.quietReqs st
-      let flag := s!"{if conv then 1 else 0}{if quiet then 1 else 0}{if up then 1 else 0}{if faults.all Loop.Fault.none && !sf then 0 else 1}"
+      -- the hypotheses of the stability theorem (`C03_stable_checked`) on the real reports
+      let qb := quietB Coord.swrFloat inp
+      let flag := s!"{if conv then 1 else 0}{if quiet then 1 else 0}{if up then 1 else 0}{if faults.all Loop.Fault.none && !sf then 0 else 1}{if qb then 1 else 0}"
       { a with w := w', flags := a.flags ++ [flag] }
   let (mn, mobs) := worldObs env a.w
   if mn != n then fail a s!"replicas:model={mn},real={n}"
